@@ -55,6 +55,14 @@ package ledger
 //   5. acctonline.go commitRound `AccountsPruneOnlineRoundParams(forgetBefore)` -> `+ 1`
 //      (only visible after flush + restart: the persisted params window is one round short)
 //   6. acctonline.go TopOnlineAccounts `voteRnd <= d.VoteLastValid` -> `<` (deltas path)
+//   Seeded by independent agents: C13-B (= mutant 1 written as `VoteLastValid <= voteRnd`)
+//   DETECTED. C13-A (makeCompactOnlineAccountDeltas skips `deltaRound++` for rounds whose
+//   AccountDeltas are EMPTY) is not detected and cannot be by any harness driving the real
+//   evaluator: StartEvaluator always Puts the rewards pool, so every real block's delta has
+//   >= 1 account (evidence key blocks_with_empty_account_delta stays absent/0); only
+//   hand-made deltas of mock-ledger tests are empty. The reachable form of the same mistake
+//   (`Len() <= 1`, i.e. pool-only rounds skipped) is DETECTED at depth 3: [empty payB flush]
+//   -> LookupAgreement(1,B) serves the round-2 stake.
 //
 // Not covered: suspension via heartbeat/absent lists (payouts disabled),
 // more than one transaction per block, consensus upgrades, concurrent lookup-vs-commit
